@@ -36,10 +36,14 @@ def gen_region(rng, wd, wcs, kind):
     r = R * math.sqrt(rng.random())
     t = rng.uniform(0, 2 * math.pi)
     px, py = wd['crpix'][0] - 1 + r * math.cos(t), wd['crpix'][1] - 1 + r * math.sin(t)
-    sc = wcs.pixel_to_world(px, py)
+    # the centre is expressed in a frame drawn independently of the WCS frame (other frame, non-default equinox / obstime):
+    # a sky angle and a "north" are those of the centre's OWN frame, which is also what the oracle's directional_offset_by uses
+    from astropy.wcs.utils import wcs_to_celestial_frame
+    spec = C6.gen_region_frame(rng)
+    sc = wcs.pixel_to_world(px, py).transform_to(C6.make_frame(spec, wcs_to_celestial_frame(wcs)))
     lo, la = lonlat(sc)
     asec = wd['scale'] * 3600.0
-    d = {'kind': kind, 'c': [float(lo[0]), float(la[0])], 'meta': gen_meta(rng), 'visual': gen_visual(rng)}
+    d = {'kind': kind, 'c': [float(lo[0]), float(la[0])], 'meta': gen_meta(rng), 'visual': gen_visual(rng), 'frame': spec}
 
     def size(lo_px, hi_px):
         return rng.uniform(lo_px, hi_px) if rng.random() < 0.8 else float(rng.randint(max(1, math.ceil(lo_px)), int(hi_px)))
@@ -77,10 +81,13 @@ def components(c):
 
 def compute(case):
     """the real computation: the pixel image, and (independently of the helper) the images of the semi-axis end points."""
+    import warnings
     import astropy.units as u
     from astropy.coordinates import Angle
+    from astropy.coordinates.baseframe import NonRotationTransformationWarning
     from astropy.wcs.utils import wcs_to_celestial_frame
     from regions._utils.wcs_helpers import pixel_scale_angle_at_skycoord
+    warnings.filterwarnings('ignore', category=NonRotationTransformationWarning)
     wd = case['wcs']
     h = case.get('history')
     # history mode (see c06.py): the region object and the WCS object may have been used before with other parameters /
@@ -352,4 +359,6 @@ class Check(PropertyCheck):
 
     def bucket(self, case, real):
         h = case.get('history')
-        return f"{case['kind']}/{case['wcs']['proj']}/{case['wcs']['frame']}/{'history-' + h['mode'] if h else 'fresh'}"
+        fr = case['region'].get('frame')
+        frtxt = 'wcs-frame' if fr is None else fr['name'] + ('*' if len(fr) > 1 else '')
+        return f"{case['kind']}/{case['wcs']['proj']}/{case['wcs']['frame']}/region:{frtxt}/{'history-' + h['mode'] if h else 'fresh'}"
